@@ -113,10 +113,37 @@ func (ns *nilSummaries) edgeImpliesError(a *parserAnchors, b *ssa.BasicBlock, i 
 	case atNil:
 		// edge on which value == nil
 		if !at.neg {
-			if call, ok := at.val.(*ssa.Call); ok {
+			val := at.val
+			// a field of the node under construction, read back right after it was assigned the call's result
+			if u, ok := val.(*ssa.UnOp); ok && u.Op == token.MUL {
+				if fa, ok := u.X.(*ssa.FieldAddr); ok {
+					if al, ok := fa.X.(*ssa.Alloc); ok {
+						var stored ssa.Value
+						n := 0
+						for _, r := range *al.Referrers() {
+							fa2, ok := r.(*ssa.FieldAddr)
+							if !ok || fa2.Field != fa.Field {
+								continue
+							}
+							for _, r2 := range *fa2.Referrers() {
+								if st, ok := r2.(*ssa.Store); ok && st.Addr == ssa.Value(fa2) {
+									n++
+									if instrDominates(st, u) {
+										stored = st.Val
+									}
+								}
+							}
+						}
+						if n == 1 && stored != nil {
+							val = stored
+						}
+					}
+				}
+			}
+			if call, ok := val.(*ssa.Call); ok {
 				return ns.nilIsError[call.Call.StaticCallee()]
 			}
-			if ex, ok := at.val.(*ssa.Extract); ok {
+			if ex, ok := val.(*ssa.Extract); ok {
 				if call, ok := ex.Tuple.(*ssa.Call); ok {
 					return ns.nilIsError[call.Call.StaticCallee()]
 				}
@@ -207,6 +234,9 @@ func returnsNilValue(ns *nilSummaries, v ssa.Value, seen map[ssa.Value]bool) boo
 		}
 	case *ssa.Call:
 		if cal := x.Call.StaticCallee(); cal != nil {
+			if nilConverter(cal) != nil && len(x.Call.Args) == 1 {
+				return returnsNilValue(ns, x.Call.Args[0], seen)
+			}
 			return ns.mayNil[cal]
 		}
 	case *ssa.MakeInterface:
@@ -249,6 +279,14 @@ type nilOrigin struct {
 }
 
 func nilOrigins(ns *nilSummaries, v ssa.Value) []nilOrigin {
+	return nilOriginsSeen(ns, v, map[ssa.Value]bool{})
+}
+
+func nilOriginsSeen(ns *nilSummaries, v ssa.Value, seen map[ssa.Value]bool) []nilOrigin {
+	if seen[v] {
+		return nil // a loop-carried value: its other edges are visited on the first encounter
+	}
+	seen[v] = true
 	switch x := v.(type) {
 	case *ssa.Const:
 		if x.IsNil() {
@@ -257,7 +295,7 @@ func nilOrigins(ns *nilSummaries, v ssa.Value) []nilOrigin {
 	case *ssa.Phi:
 		var out []nilOrigin
 		for i, e := range x.Edges {
-			for _, o := range nilOrigins(ns, e) {
+			for _, o := range nilOriginsSeen(ns, e, seen) {
 				if o.konst && o.pred == nil {
 					o.pred = x.Block().Preds[i]
 				}
@@ -266,13 +304,17 @@ func nilOrigins(ns *nilSummaries, v ssa.Value) []nilOrigin {
 		}
 		return out
 	case *ssa.Call:
+		if cal := x.Call.StaticCallee(); cal != nil && nilConverter(cal) != nil && len(x.Call.Args) == 1 {
+			// nil exactly when its argument is
+			return nilOriginsSeen(ns, x.Call.Args[0], seen)
+		}
 		if cal := x.Call.StaticCallee(); cal != nil && ns.mayNil[cal] {
 			return []nilOrigin{{call: x}}
 		}
 	case *ssa.UnOp:
 		var out []nilOrigin
 		for _, st := range cellStores(x) {
-			for _, o := range nilOrigins(ns, st.Val) {
+			for _, o := range nilOriginsSeen(ns, st.Val, seen) {
 				if o.konst && o.pred == nil && o.store == nil {
 					o.store = st
 				}
@@ -413,6 +455,10 @@ func r11_2(c *Ctx, a *parserAnchors, ns *nilSummaries, id string) {
 	c.rule(id, "every nil-valued return of a node pointer/interface/slice is reached only after an error was recorded")
 	c.floor(15)
 	for _, f := range c.libFunctions("parser") {
+		if nilConverter(f) != nil {
+			c.ok(fnName(f)+": nil only for a nil argument", f.Pos(), "a converter: its nil result is judged where its argument is produced")
+			continue
+		}
 		ci := ns.cleanPaths(a, f)
 		n := 0
 		seenStore := map[*ssa.Store]bool{}
@@ -1444,4 +1490,102 @@ func nonNegativeCounter(v ssa.Value) bool {
 		return false
 	}
 	return walk(v)
+}
+
+// nilConverter: f turns a node value into another node type and yields nil only for a nil argument:
+//
+//	func conv(x T) I { if x == nil (or the zero value of T) { return nil }; return x }
+//
+// Every nil-constant return sits on the edge on which the (single) value parameter was found nil/zero, every other
+// return yields the parameter itself (possibly converted to an interface). A call conv(e) is then nil exactly when e is.
+var nilConverterCache = map[*ssa.Function]*ssa.Parameter{}
+
+func nilConverter(f *ssa.Function) *ssa.Parameter {
+	if f == nil || f.Blocks == nil {
+		return nil
+	}
+	if p, ok := nilConverterCache[f]; ok {
+		return p
+	}
+	nilConverterCache[f] = nil
+	if f.Signature.Recv() != nil || len(f.Params) != 1 || f.Signature.Results().Len() != 1 {
+		return nil
+	}
+	par := f.Params[0]
+	isZero := func(v ssa.Value) bool {
+		k, ok := v.(*ssa.Const)
+		return ok && k.Value == nil
+	}
+	derived := func(v ssa.Value) bool {
+		for i := 0; i < 4; i++ {
+			switch x := v.(type) {
+			case *ssa.Parameter:
+				return x == par
+			case *ssa.MakeInterface:
+				v = x.X
+			case *ssa.ChangeInterface:
+				v = x.X
+			case *ssa.ChangeType:
+				v = x.X
+			default:
+				return false
+			}
+		}
+		return false
+	}
+	good, anyNil := true, false
+	pure := true
+	allInstrs(f, func(_ *ssa.BasicBlock, _ int, in ssa.Instruction) {
+		switch in.(type) {
+		case *ssa.Store, *ssa.MapUpdate, *ssa.Call, *ssa.Go, *ssa.Defer, *ssa.Send:
+			pure = false
+		}
+	})
+	if !pure {
+		return nil
+	}
+	allInstrs(f, func(b *ssa.BasicBlock, _ int, in ssa.Instruction) {
+		r, ok := in.(*ssa.Return)
+		if !ok || len(r.Results) != 1 {
+			return
+		}
+		v := r.Results[0]
+		if derived(v) {
+			return
+		}
+		if !isZero(v) {
+			good = false
+			return
+		}
+		anyNil = true
+		guarded := false
+		for _, ob := range f.Blocks {
+			iff := blockIf(ob)
+			if iff == nil {
+				continue
+			}
+			bo, ok := iff.Cond.(*ssa.BinOp)
+			if !ok || (bo.Op != token.EQL && bo.Op != token.NEQ) {
+				continue
+			}
+			x, y := bo.X, bo.Y
+			if isZero(x) {
+				x, y = y, x
+			}
+			if x != ssa.Value(par) || !isZero(y) {
+				continue
+			}
+			if condEdgeDominates(ob, bo.Op == token.EQL, b) {
+				guarded = true
+			}
+		}
+		if !guarded {
+			good = false
+		}
+	})
+	if good && anyNil {
+		nilConverterCache[f] = par
+		return par
+	}
+	return nil
 }
